@@ -172,7 +172,7 @@ def gen_url(rng: Any, allow: tuple[str, ...]) -> str:
     return u
 
 
-PATH_SEGS = ["a", "b", "describe", "..", ".", "%2e%2e", "%2E.", ".%2e", "%2e", "%252e%252e", "%5Cevil.com", "\\evil.com", "", "evil.com",
+PATH_SEGS = ["a%2523", "%2523", "a%253F", "%253f", "%252F", "a%252Fb", "%255C", "%2525", "%252e", "..%2523", "a%23", "a", "b", "describe", "..", ".", "%2e%2e", "%2E.", ".%2e", "%2e", "%252e%252e", "%5Cevil.com", "\\evil.com", "", "evil.com",
              " ", "%09", "%0a", "é", ";x", "%2F", "%2Fevil.com", "%3F", "%23", "a%20b", "%00", "a..b", "...", "@evil.com", "x:y", "%7F", "%E2%80%AE"]
 
 
@@ -188,6 +188,38 @@ def gen_req_path(rng: Any, prefix: str) -> str:
         p = "/" + p
     # the wire form: keep %xx as written, encode everything else that is not an unreserved path character
     return "".join(ch if ch in "/%" or ch.isalnum() and ch.isascii() or ch in "-._~;:@" else up.quote(ch, safe="") for ch in p)
+
+
+# percent-encoded delimiters / dots / slashes (single and double encoding) that a validator may decode but a browser does not
+ENC_DELIMS = ["%23", "%3F", "%3f", "%2F", "%2f", "%5C", "%5c", "%2E", "%2e", "%25", "%2523", "%253F", "%252E", "%252e%252e", "%252F", "%3B", "%40"]
+DOT_SEGS = ["..", ".", "%2e%2e", "%2E.", ".%2e", "%2e", "%2E%2E", "..%2F", "%2e%2e%2f", "..;", "%252e%252e", "..%23", "%23..", "..%3F"]
+
+
+def gen_dot_path(rng: Any, prefix: str) -> str:
+    """An original URL (as the validator sees it) with encoded delimiters before / inside / after dot segments."""
+    def plain() -> str:
+        return rng.choice(["a", "b", "describe", "x.y", "a..b", "other-app", "admin", ""])
+
+    def enc_seg() -> str:
+        e = rng.choice(ENC_DELIMS)
+        return rng.choice([e, plain() + e, e + plain(), plain() + e + plain(), e + rng.choice(ENC_DELIMS)])
+
+    segs: list[str] = []
+    for _ in range(rng.choice([0, 1, 1, 2])):
+        segs.append(enc_seg() if rng.random() < 0.6 else plain())
+    for _ in range(rng.choice([1, 1, 2, 3])):
+        d = rng.choice(DOT_SEGS)
+        if rng.random() < 0.25:
+            d = rng.choice([rng.choice(ENC_DELIMS) + d, d + rng.choice(ENC_DELIMS)])  # delimiter inside the dot segment
+        segs.append(d)
+        if rng.random() < 0.3:
+            segs.append(enc_seg())
+    for _ in range(rng.choice([0, 1, 2])):
+        segs.append(plain() if rng.random() < 0.7 else enc_seg())
+    head = prefix if rng.random() < 0.85 else rng.choice(["", "/other", prefix + "x"])
+    u = head + "".join("/" + s for s in segs)
+    u += rng.choice(["", "", "", "/", "?a=b", "?x=../y", "#f", "?a=%23/../..", "%23", "%3F/.."])
+    return u if u.startswith("/") else "/" + u
 
 
 def gen_query(rng: Any) -> str:
@@ -962,7 +994,8 @@ WITNESS_URLS = [
 ]
 WITNESS_PATHS = [
     ("/%5Cevil.com", ""), ("//evil.com", ""), ("///evil.com", ""), ("/%09/evil.com", ""), ("/../../x", ""), ("/describe", "a=b"),
-    ("/%2e%2e/x", ""), ("/%252e%252e/x", ""), ("/a/%2E%2E/%2E%2E/x", ""), ("/x", "next=//evil.com"), ("/%5C%5Cevil.com", ""), ("/;/evil.com", ""),
+    ("/%2e%2e/x", ""), ("/%252e%252e/x", ""), ("/a%2523/../../other-app/admin", ""), ("/a%253F/../../x", ""), ("/%2523/%252e%252e/x", ""),
+    ("/a%252F../../x", ""), ("/a/..%2523/x", ""), ("/a%23/../x", ""), ("/a/%2E%2E/%2E%2E/x", ""), ("/x", "next=//evil.com"), ("/%5C%5Cevil.com", ""), ("/;/evil.com", ""),
 ]
 TOKENS = [GOOD, "x", "a.b.c", "eyJhbGciOiJub25lIn0.eyJleHAiOjF9.x", "eyJhbGciOiJub25lIn0.eyJleHAiOjk5OTk5OTk5OTl9.x"]
 
@@ -1035,6 +1068,18 @@ def run(ctx: Any) -> None:
                 u = mutate(rng, p + rng.choice(PATHS) + rng.choice(QUERIES) + rng.choice(FRAGS), rng.choice([0, 1, 2]))
             if no_surrogates(u):
                 origs.append((u, p))
+        for _ in range(ctx.budget(3000, 60000)):
+            p = rng.choice(PREFIXES)
+            origs.append((gen_dot_path(rng, p), p))
+        # every short sequence of path tokens: slashes, dot segments, encoded delimiters, real delimiters
+        toks = ["/", "..", ".", "a", "%23", "%3F", "%2e", "%2F", "%5C", "%25", "?", "#"]
+        n_tok = 0
+        for ln in range(1, (5 if full else 4) + 1):
+            for tup in itertools.product(toks, repeat=ln):
+                if ".." in tup or "." in tup or "%2e" in tup:
+                    origs.append(("/a/" + "".join(tup), "/a"))
+                    n_tok += 1
+        ctx.note("exhaustive_original_url_token_sequences", n_tok)
         alpha_ou = ["/", "\\", ".", "a", "%", "2", "e", "?", "\t"]
         n_exh = 0
         for ln in range(0, (5 if full else 3) + 1):
@@ -1098,7 +1143,10 @@ def run(ctx: Any) -> None:
             rt = gen_url(rng, fl.allow) if r < 0.6 else None
             if rt is not None and not no_surrogates(rt):
                 continue
-            path = gen_req_path(rng, fl.prefix)
+            if rng.random() < 0.3:
+                path = up.quote(gen_dot_path(rng, fl.prefix).split("?")[0].split("#")[0], safe="/-._~;:@")  # wire form: the WSGI layer decodes once
+            else:
+                path = gen_req_path(rng, fl.prefix)
             dec = up.unquote(path)
             if dec.startswith(fl.prefix + "/_oauth/") or dec.startswith(fl.prefix + "/health"):
                 continue
